@@ -34,3 +34,32 @@ def c12(ck):
     ck.sample({"model_case": cases[len(cases) // 2]})
     ck.assumptions += ["addresses are logged as (bucket, offset) pairs; values >= 2^47 keep only their pre-filter class (bucket mod 2^11)",
                        "mappings given to the dumper are synthetic (PtraceDumper over a paused child with `mappings` replaced)"]
+
+
+def c17(ck):
+    quick = ck.tier == "quick"
+    util.mc_design(ck, "MC_MemReader", "MC_MemReader", "the three read strategies over [0,R) readable: every start s < R, length 1..20, word size 8; invariants C17, StepwiseIsFunction", workers=4)
+    ex = core.mc_or_die("MC_MemReader", "MC_MemReader_export", workers=4, timeout=600)
+    cases = ex["printed"].get("REPLAY", [])
+    if not cases:
+        raise core.ToolError("MC_MemReader exported no cases")
+    inp = os.path.join(ck.work, "mem.in")
+    out = os.path.join(ck.work, "mem.ndjson")
+    core.export_lines([cases], inp)
+    core.drive("memread", out, inp=inp, seed=ck.seed, random=3000 if quick else 100000, extra=["--workdir", ck.work], timeout=3000)
+
+    def describe(hist, tag):
+        e = hist[-1]
+        return ({"tag": tag}, f"{e.get('style')} read of {e.get('n')} bytes starting {e.get('R', 0) - e.get('s', 0)} bytes before the end of readable memory: result {e.get('res')} with {e.get('got')} bytes, bytes match: {e.get('prefixOk')}")
+    v = util.judge_parallel(ck, "Trace_MemReader", out, "MemReader::for_virtual_mem / for_file / for_ptrace + read_to_vec on a pattern-filled region of an attached target that ends at an unmapped page: every TLC case (all alignments mod 8, lengths 1..20) and random ranges up to 64 KiB inside, at and across the end",
+                            "MemReader", describe, jobs=4)
+    if v.get("across", 0) == 0:
+        raise core.ToolError("vacuous: no range ran into unreadable memory")
+    ck.cov["distinct_nontrivial"] = v.get("checked", 0)
+    ck.cov["ranges_into_unreadable_memory"] = v.get("across", 0)
+    ck.cov["traces_validated_against_impl"] = v.get("checked", 0)
+    ck.cov["rule"] = "one case = one (strategy, start, length) read; TLC cases are all distinct, random ones seeded; non-trivial = the read was executed and judged"
+    ck.cov["exhaustive"] = True
+    ck.cov["decided_by"] = {"ok/err, returned length vs readable extent": "spec", "returned bytes equal the target's (address-derived pattern, cross-checked through /proc/<pid>/mem)": "comparator"}
+    ck.sample({"model_case": cases[len(cases) // 3]})
+    ck.assumptions += ["'unreadable' = an unmapped page (PROT_NONE pages are read through by PEEKDATA and /proc/<pid>/mem, which is a property of the kernel, not of the reader)"]
